@@ -43,6 +43,17 @@ def patterns_for(tree_files):
 
     if not files:
         return st.just([])
+    # a broad pattern followed by a negation that re-includes one file: the order of the list matters
+    # (the last matching pattern decides).  Only extensions that no directory name carries.
+    with_ext = [f for f in files if os.path.splitext(f)[1]]
+    reinclude = st.sampled_from(with_ext or files).map(lambda f: ["*" + os.path.splitext(f)[1], "!" + os.path.basename(f)]) if with_ext else st.nothing()
+    if with_ext:
+        return st.one_of(_plain_lists(st, files, variants), _plain_lists(st, files, variants), _plain_lists(st, files, variants), reinclude,
+                         st.tuples(reinclude, _plain_lists(st, files, variants)).map(lambda t: t[0] + [q for q in t[1] if q not in t[0]][:1]))
+    return _plain_lists(st, files, variants)
+
+
+def _plain_lists(st, files, variants):
     return st.lists(st.sampled_from(files).flatmap(lambda f: st.sampled_from(variants(f))), min_size=1, max_size=3, unique=True)
 
 
@@ -149,6 +160,22 @@ def check_case(case, res: Result, cli=False):
                 vs.append(make_violation("iteration-disagrees-with-membership", cj, {"file": f, "member": member}, {"listed": f in rE}))
                 break
         removed = sorted(set(r0) - set(rE))
+        # which files go is git's decision (the documented reference, as in C09); compared where the two
+        # known pathspec/git divergences of C09 cannot interfere: no links, negations only in the
+        # constructed `*.ext` + `!name` form, no pattern ending in `**/`
+        negs = [q for q in E if q.startswith("!")]
+        if not case.get("symlinks") and not any(q.rstrip().endswith("**/") for q in E) and (not negs or (len(negs) == 1 and E[0].startswith("*.") and E[1] == negs[0])):
+            from checks import c09
+
+            inroot = sorted(f for f in r0 if not f.startswith(".."))
+            if inroot:
+                ign = c09.git_ignored(os.path.join(top, "gitdir"), os.path.realpath(root), list(E), inroot)
+                want_removed = sorted(f for f in inroot if ign[f])
+                if want_removed != removed:
+                    vs.append(make_violation("excluded-set-differs-from-git", cj, {"patterns": E, "git ignores": want_removed}, {"removed": removed}))
+                res.labels["excluded-set-compared-with-git"] += 1
+                if negs:
+                    res.labels["negation-after-broad-pattern"] += 1
         expect_diff = collections.Counter()
         for f in removed:
             if not r0[f][0]:
